@@ -67,7 +67,11 @@ type fzWorld struct {
 func newFzWorld(cfg int) *fzWorld {
 	w := &fzWorld{cfg: cfg}
 	wrap := cfg&2 != 0
-	w.s = world.MustServer(world.ServerCfg{Backend: world.Inmem, StorageWrap: wrap, RegWrap: wrap})
+	be := world.Inmem
+	if wrap {
+		be = world.StoreOnce // implements lookup by node ID
+	}
+	w.s = world.MustServer(world.ServerCfg{Backend: be, StorageWrap: wrap, RegWrap: wrap})
 	er, err := world.Enroll(w.s, world.FlowAuthorize, false, nil, nil, nil)
 	if err != nil {
 		panic(err)
@@ -78,6 +82,23 @@ func newFzWorld(cfg int) *fzWorld {
 		panic(err)
 	}
 	w.reg = er2.Node
+	if wrap {
+		// node ID "N" has two records: the registered node's, and one that was sealed with a storage
+		// wrapper the server no longer uses (it cannot be opened with the listener's options)
+		if ni, err := w.s.LoadNode(w.reg.K.KeyID); err == nil {
+			_ = w.s.RemoveNode(w.reg.K.KeyID)
+			ni.NodeId = "N"
+			if err := ni.Store(w.s.Ctx, w.s.Store, w.s.StoreOpts()...); err != nil {
+				panic(err)
+			}
+			stale := proto.Clone(ni).(*types.NodeInformation)
+			sk := world.NewKeys()
+			stale.Id, stale.CertificatePublicKeyPkix = sk.KeyID, sk.Pkix
+			if err := stale.Store(w.s.Ctx, w.s.Store, nodeenrollment.WithStorageWrapper(world.NewAead("retired-storage-wrapper"))); err != nil {
+				panic(err)
+			}
+		}
+	}
 	w.start()
 	return w
 }
@@ -479,6 +500,13 @@ func (w *fzWorld) genCases(c *engine.Ctx, rng *rand.Rand) []fzCase {
 	authHostile("common name 300 chars", func(r *types.GenerateServerCertificatesRequest) { r.CommonName = string(make([]byte, 300)) })
 	authHostile("common name with NUL and unicode", func(r *types.GenerateServerCertificatesRequest) { r.CommonName = "a\x00b☃.example" })
 	authHostile("node id set", func(r *types.GenerateServerCertificatesRequest) { r.NodeId = "some-node" })
+	// node ID "N" (in the worlds with wrappers: one readable and one unreadable record under it)
+	authHostile("node id N, registered key", func(r *types.GenerateServerCertificatesRequest) { r.NodeId = "N" })
+	authHostile("node id N, unregistered key", func(r *types.GenerateServerCertificatesRequest) {
+		k := world.NewKeys()
+		r.NodeId, r.CertificatePublicKeyPkix, r.NonceSignature = "N", k.Pkix, ed25519.Sign(k.Priv, r.Nonce)
+	})
+	authHostile("node id N, no signature", func(r *types.GenerateServerCertificatesRequest) { r.NodeId, r.NonceSignature = "N", nil })
 	authHostile("nonce 1 byte", func(r *types.GenerateServerCertificatesRequest) {
 		r.Nonce = []byte{1}
 		r.NonceSignature = ed25519.Sign(w.reg.K.Priv, r.Nonce)
